@@ -291,7 +291,7 @@ namespace
             runtime.__logmsg(err::ReturningEmptyArray(runtime.context_active().current_frame().diag_info_from_position()));
             return std::make_shared<d_array>();
         }
-        if (nav->size() == 0)
+        if (nav.begin() == nav.end())
         {
             return std::make_shared<d_array>();
         }
@@ -370,7 +370,7 @@ namespace
                 runtime.__logmsg(err::ReturningEmptyArray(runtime.context_active().current_frame().diag_info_from_position()));
                 return std::make_shared<d_array>();
             }
-            if (nav->size() == 0)
+            if (nav.begin() == nav.end())
             {
                 return std::make_shared<d_array>();
             }
